@@ -63,6 +63,9 @@ def one(job):
         shutil.rmtree(d, ignore_errors=True)
 
 
+LIMITS: dict = {}
+
+
 def main():
     ap = argparse.ArgumentParser()
     ap.add_argument('--tests', action='store_true')
@@ -83,12 +86,16 @@ def main():
             m = json.load(open(meta))
             if m.get('obsolete'):
                 continue  # masked by a later fix in /repo; kept for the record (see meta.json)
+            if m.get('undetectable'):
+                LIMITS[os.path.join(os.path.dirname(meta), 'patch.diff')] = True  # outside the reach of the technique (see meta.json note); still run, reported as such
             for q in m.get('checks', [m['property']]):
                 jobs.append((q, os.path.join(os.path.dirname(meta), 'patch.diff'), a.tests and q == m['property'], max(2, 16 // a.jobs)))
     jobs = [j for j in jobs if a.only in j[1] or a.only == j[0]]
     res = []
     with concurrent.futures.ThreadPoolExecutor(a.jobs) as ex:
         for r in ex.map(one, jobs):
+            if r['status'] != 'CAUGHT' and any(r['patch'] and k.endswith(r['patch']) or k == r['patch'] for k in LIMITS):
+                r['status'] = 'MISSED (documented limit)'
             print(f"{r['status']:<14} {r['property']} {r['patch']}  {r.get('first', r.get('detail', ''))[:160]}  [{r.get('check_s')}s] {r.get('suite', '')}", flush=True)
             res.append(r)
     if not a.only:
